@@ -124,7 +124,10 @@ def gen_case(rng, stream: str):
             a = gen_array(rng, rows, cols)
             if rng.random() < 0.06:
                 a = [row + [1] for row in a] if rng.random() < 0.5 else a + [[1] * cols]
-            case["ops"].append(["array", a, rng.choice(["float64", "float64", "float32", "float16"])])
+            op = ["array", a, rng.choice(["float64", "float64", "float32", "float16"])]
+            if rng.random() < 0.45:
+                op.append({"layout": rng.choice(LAYOUTS)})    # same logical values, non-C memory layout
+            case["ops"].append(op)
         elif r < 0.62:
             # 4th element: seed of a permutation of the 13 DataFrame columns / of the keyword order (None = canonical order)
             case["ops"].append(["clusters", gen_clusters(rng, case, p_out), rng.choice(["add_charge", "dataframe", "dataframe"]),
@@ -160,7 +163,10 @@ def gen_alias_case(rng):
             if k not in bufs:
                 bufs[k] = gen_array(rng, rows, cols) if rng.random() < 0.9 else [[0] * cols for _ in range(rows)]
                 dts[k] = rng.choice(["float64", "float64", "float64", "float32"])
-            case["ops"].append(["array", [list(row) for row in bufs[k]], dts[k], {"buf": k}])
+            meta = {"buf": k}
+            if k % 3 == 2:
+                meta["layout"] = LAYOUTS[k % len(LAYOUTS)]
+            case["ops"].append(["array", [list(row) for row in bufs[k]], dts[k], meta])
         elif r < 0.65 and bufs:
             k = rng.choice(list(bufs))
             bufs[k] = [[0] * cols for _ in range(rows)] if rng.random() < 0.5 else gen_array(rng, rows, cols)
@@ -189,6 +195,23 @@ def directed_alias_cases():
         dict(base, ops=[["array", z, "float64"], A, ["read"], A, ["read"], ["reset"], A, B, A, ["read"]]),
         dict(base, ops=[A, ["clusters", [[4, 5.0, 5.0]], "dataframe", None], A, ["mutate", 0, z], ["read"]]),
     ]
+
+
+def directed_layout_cases():
+    """arrays with distinct entries in every non-C memory layout, added while clusters exist (conversion to clusters),
+    as the first addition before clusters arrive, and array-only"""
+    out = []
+    for rows, cols in ((2, 3), (3, 2), (4, 3)):
+        base = {"det": "CCD", "rows": rows, "cols": cols, "h": 10.0, "w": 5.0}
+        a = [[1 + i * cols + j for j in range(cols)] for i in range(rows)]
+        a[0][1] = 0
+        for lay in LAYOUTS:
+            for dt in ("float64", "float32"):
+                A = ["array", a, dt, {"layout": lay}]
+                out.append(dict(base, ops=[["clusters", [[100, 5.0, 2.5]], "add_charge", None], A, ["read"]]))
+                out.append(dict(base, ops=[A, ["clusters", [[100, 5.0, 2.5]], "dataframe", None], ["read"], A, ["read"]]))
+            out.append(dict(base, ops=[["array", a, "float64", {"layout": lay}], ["read"], ["array", a, "float64", {"layout": lay}], ["read"]]))
+    return out
 
 
 def directed_perm_cases():
@@ -233,6 +256,39 @@ def has_outside(case) -> bool:
 
 
 # ------------------------------------------------------------------ implementation side (runs in a worker process)
+LAYOUTS = ["F", "T", "rev", "slice", "rev-rows", "slice-rows"]
+
+
+def make_array(grid, dtype, layout):
+    """an ndarray whose LOGICAL values are `grid`, in the requested memory layout"""
+    import numpy as np
+
+    a = np.array(grid, dtype=dtype)
+    if layout in (None, "C") or a.ndim != 2:
+        return a
+    if layout == "F":
+        out = np.asfortranarray(a)
+    elif layout == "T":                      # transposed view of a C-ordered array of the transposed shape
+        out = np.ascontiguousarray(a.T).T
+    elif layout == "rev":                    # negative strides on both axes
+        out = np.ascontiguousarray(a[::-1, ::-1])[::-1, ::-1]
+    elif layout == "rev-rows":
+        out = np.ascontiguousarray(a[::-1, :])[::-1, :]
+    elif layout == "slice":                  # non-contiguous window of a larger array
+        big = np.full((a.shape[0] * 2 + 2, a.shape[1] * 3 + 1), 99, dtype=dtype)
+        big[1:1 + 2 * a.shape[0]:2, 1:1 + 3 * a.shape[1]:3] = a
+        out = big[1:1 + 2 * a.shape[0]:2, 1:1 + 3 * a.shape[1]:3]
+    elif layout == "slice-rows":             # window of a larger Fortran-ordered array
+        big = np.full((a.shape[0] + 3, a.shape[1] + 2), 99, dtype=dtype, order="F")
+        big[2:2 + a.shape[0], 1:1 + a.shape[1]] = a
+        out = big[2:2 + a.shape[0], 1:1 + a.shape[1]]
+    else:
+        raise common.InfraError(f"unknown layout {layout}")
+    if out.shape != a.shape or not np.array_equal(out, a):
+        raise common.InfraError(f"layout {layout} changed the logical values")
+    return out
+
+
 def run_impl(case):
     import numpy as np
     import pyx
@@ -252,10 +308,10 @@ def run_impl(case):
                 if "buf" in meta:
                     k = str(meta["buf"])
                     if k not in bufs:
-                        bufs[k] = np.array(op[1], dtype=op[2])
+                        bufs[k] = make_array(op[1], op[2], meta.get("layout"))
                     arr = bufs[k]           # the SAME object as in earlier additions
                 else:
-                    arr = np.array(op[1], dtype=op[2])
+                    arr = make_array(op[1], op[2], meta.get("layout"))
                 ch.add_charge_array(arr)
                 rec["out"] = "ok"
             elif op[0] == "mutate":
@@ -444,7 +500,7 @@ def property_predicate(case, impl, mode):
                       + (": a cluster outside the sensitive area makes the unchecked @njit loop write outside the array" if outside else ""), len(case["ops"]) - 1)]
     bad = []
     acc = [[Fraction(0)] * cols for _ in range(rows)]
-    tracking, outside_since_reset = True, False
+    tracking, outside_since_reset, noop_removal = True, False, False
     for i, (op, r) in enumerate(zip(case["ops"], impl["res"])):
         out = r["out"]
         if op[0] == "array":
@@ -463,7 +519,10 @@ def property_predicate(case, impl, mode):
             acc = [[Fraction(0)] * cols for _ in range(rows)]
             tracking, outside_since_reset = True, False
         elif op[0] == "remove":
-            tracking = False
+            if i > 0 and not impl["res"][i - 1]["frame"] or i == 0:
+                noop_removal = True      # no cluster existed: nothing is removed, the charge added so far must stay
+            else:
+                tracking = False
         elif op[0] == "read":
             if out == "IndexError" and mode == "boundscheck":
                 bad.append(("C14:outside-out-of-bounds",
@@ -481,8 +540,12 @@ def property_predicate(case, impl, mode):
                 diff = [(a, b, str(g[a][b]), str(acc[a][b])) for a in range(rows) for b in range(cols) if g[a][b] != acc[a][b]]
                 over = any(g[a][b] > acc[a][b] for a in range(rows) for b in range(cols))
                 key = "C14:outside-credited-elsewhere" if (outside_since_reset and over) else "C14:accounting"
-                if key == "C14:accounting" and any(o[0] == "mutate" or (o[0] == "array" and len(o) > 3 and o[3]) for o in case["ops"][:i]):
+                if key == "C14:accounting" and noop_removal and not over:
+                    key = "C14:remove-without-clusters-erases-array-charge"
+                elif key == "C14:accounting" and any(o[0] == "mutate" or (o[0] == "array" and len(o) > 3 and o[3] and "buf" in o[3]) for o in case["ops"][:i]):
                     key = "C14:accounting-caller-array-reused"
+                elif key == "C14:accounting" and any(o[0] == "array" and len(o) > 3 and o[3] and o[3].get("layout") for o in case["ops"][:i]):
+                    key = "C14:accounting-memory-layout"
                 elif key == "C14:accounting" and any(o[0] == "clusters" and len(o) > 3 and o[3] is not None for o in case["ops"][:i]):
                     key = "C14:accounting-column-order"
                 bad.append((key, f"op #{i} read: reported charge differs from the sum of what was added since the last reset at "
@@ -510,6 +573,14 @@ def body(ck: common.Check):
     cases = [("directed", c) for c in directed_cases(rng, quick)]
     cases += [("alias", c) for c in directed_alias_cases()] + [("alias", gen_alias_case(rng)) for _ in range(60 if quick else 1500)]
     cases += [("columns", c) for c in directed_perm_cases()]
+    a0 = [[1, 0, 2], [0, 3, 0]]
+    b0 = {"det": "CCD", "rows": 2, "cols": 3, "h": 10.0, "w": 10.0}
+    cases += [("remove", dict(b0, ops=[["array", a0, "float64"], ["remove", ids_], ["read"], ["array", a0, "float32"], ["read"],
+                                        ["clusters", [[4, 5.0, 5.0]], "add_charge", None], ["read"]])) for ids_ in ([], [0], [3, 7])]
+    cases += [("remove", dict(b0, ops=[["clusters", [[4, 5.0, 5.0], [2, 15.0, 25.0]], "add_charge", None], ["read"], ["remove", ids_], ["read"],
+                                        ["array", a0, "float64"], ["read"]])) for ids_ in ([], [0, 1], [0])]
+    lay = directed_layout_cases()
+    cases += [("layout", c) for c in (lay if not quick else [c for k, c in enumerate(lay) if c["rows"] != 4 or k % 3 == 0])]
     for stream, n in (("inside", 130 if quick else 3000), ("outside", 90 if quick else 1800), ("remove", 50 if quick else 800)):
         cases += [(stream, gen_case(rng, stream)) for _ in range(n)]
     answers = LeanDriver("C14").batch([lean_request(c) for _, c in cases])
@@ -541,8 +612,11 @@ def body(ck: common.Check):
         for op in case["ops"]:
             ck.count(f"op={op[0]}")
         ck.count("cluster_batches_permuted_columns", sum(1 for op in case["ops"] if op[0] == "clusters" and len(op) > 3 and op[3] is not None))
-        ck.count("same_ndarray_object_re_added", sum(1 for k, op in enumerate(case["ops"]) if op[0] == "array" and len(op) > 3 and op[3]
-                                                     and any(o[0] == "array" and len(o) > 3 and o[3] == op[3] for o in case["ops"][:k])))
+        ck.count("same_ndarray_object_re_added", sum(1 for k, op in enumerate(case["ops"]) if op[0] == "array" and len(op) > 3 and op[3] and "buf" in op[3]
+                                                     and any(o[0] == "array" and len(o) > 3 and o[3] and o[3].get("buf") == op[3]["buf"] for o in case["ops"][:k])))
+        for op in case["ops"]:
+            if op[0] == "array" and len(op) > 3 and op[3] and op[3].get("layout"):
+                ck.count(f"array_layout={op[3]['layout']}")
         for mode, impl in runs[i]:
             for key, why, k in property_predicate(case, impl, mode):
                 ck.violation(key, why, {"case": dict(case, ops=case["ops"][: k + 1] + ([] if case["ops"][k][0] == "read" else [["read"]])),
@@ -574,7 +648,7 @@ def body(ck: common.Check):
     ck.assumptions = [
         "an array addition adds the values the CALLER has in its array at call time; the caller's later writes to its own ndarray are not detector operations (arrays are values in the model)",
         "additions are non-negative (array entries and cluster numbers >= 0); charges are integers, so binary64 sums are exact",
-        "removals (DESIGN 6b): while clusters remain the report must be the per-pixel sum of the clusters in .frame; nothing is claimed after removing all clusters until the next reset",
+        "removals (DESIGN 6b): while clusters remain the report must be the per-pixel sum of the clusters in .frame; nothing is claimed after removing all clusters until the next reset; a removal issued while no cluster exists removes nothing, so the accumulator keeps running through it",
         "NaN / infinite positions are not generated (the statement's quantifier lists finite coordinates)",
         "pixel-centre positions of converted arrays are compared within 1e-9 relative when the pixel size is not dyadic (the implementation rounds k*size + size/2), exactly otherwise",
         "an IndexError raised by the @njit loop under NUMBA_BOUNDSCHECK=1 is taken as proof of an out-of-bounds access of the same loop without bounds checking",
